@@ -301,6 +301,12 @@ fn run_seq(ctx: &Ctx, rep: &mut Report, n: u64, seq: &[Call]) {
                         stmt.values_panic(exprs(&row));
                         Ok(())
                     })
+                } else if crate::apply::route(3) == 0 {
+                    // the row as a lazy iterator that yields fewer items than its size_hint allows
+                    let mut padded = exprs(&row);
+                    padded.insert(row.len() / 2, SimpleExpr::Keyword(Keyword::Null));
+                    rep.count("lazy_rows", 1);
+                    guard(|| stmt.values(padded.into_iter().filter(|e| !matches!(e, SimpleExpr::Keyword(Keyword::Null)))).map(|_| ()))
                 } else {
                     guard(|| stmt.values(exprs(&row)).map(|_| ()))
                 };
